@@ -1,8 +1,8 @@
 //! Abstract model of the supported ASN.1 notation (DESIGN.md §3) and its printer.
 //! The printer emits a token list; a `Layout` decides what goes between tokens.
-use serde::Serialize;
+use serde::{Deserialize, Serialize};
 
-#[derive(Clone, Copy, Debug, PartialEq, Eq, Hash, Serialize, PartialOrd, Ord)]
+#[derive(Clone, Copy, Debug, PartialEq, Eq, Hash, Serialize, Deserialize, PartialOrd, Ord)]
 pub enum Tagging {
     NoClause,
     Explicit,
@@ -10,7 +10,7 @@ pub enum Tagging {
     Automatic,
 }
 
-#[derive(Clone, Copy, Debug, PartialEq, Eq, Hash, Serialize, PartialOrd, Ord)]
+#[derive(Clone, Copy, Debug, PartialEq, Eq, Hash, Serialize, Deserialize, PartialOrd, Ord)]
 pub enum Class {
     Context,
     Application,
@@ -18,7 +18,7 @@ pub enum Class {
     Universal,
 }
 
-#[derive(Clone, Debug, PartialEq, Eq, Hash, Serialize)]
+#[derive(Clone, Debug, PartialEq, Eq, Hash, Serialize, Deserialize)]
 pub struct Tag {
     pub class: Class,
     pub num: u32,
@@ -26,7 +26,7 @@ pub struct Tag {
     pub mode: Option<bool>,
 }
 
-#[derive(Clone, Copy, Debug, PartialEq, Eq, Hash, Serialize, PartialOrd, Ord)]
+#[derive(Clone, Copy, Debug, PartialEq, Eq, Hash, Serialize, Deserialize, PartialOrd, Ord)]
 pub enum StrKind {
     Utf8,
     Ia5,
@@ -108,7 +108,7 @@ impl StrKind {
     }
 }
 
-#[derive(Clone, Debug, PartialEq, Eq, Hash, Serialize)]
+#[derive(Clone, Debug, PartialEq, Eq, Hash, Serialize, Deserialize)]
 pub enum End {
     Min,
     Max,
@@ -119,7 +119,7 @@ pub enum End {
     Str(String),
 }
 
-#[derive(Clone, Debug, PartialEq, Eq, Hash, Serialize)]
+#[derive(Clone, Debug, PartialEq, Eq, Hash, Serialize, Deserialize)]
 pub enum Atom {
     Single(End),
     /// lo, lo_open (`<`), hi, hi_open
@@ -130,14 +130,14 @@ pub enum Atom {
     Contained(String, bool),
 }
 
-#[derive(Clone, Debug, PartialEq, Eq, Hash, Serialize)]
+#[derive(Clone, Debug, PartialEq, Eq, Hash, Serialize, Deserialize)]
 pub struct IElem {
     pub atom: Atom,
     pub except: Option<Atom>,
 }
 
 /// X.680 §50 element set: `ALL EXCEPT a` or a union of intersections of elements.
-#[derive(Clone, Debug, PartialEq, Eq, Hash, Serialize)]
+#[derive(Clone, Debug, PartialEq, Eq, Hash, Serialize, Deserialize)]
 pub struct ESet {
     pub all_except: Option<Atom>,
     pub unions: Vec<Vec<IElem>>,
@@ -159,7 +159,7 @@ impl ESet {
 }
 
 /// one parenthesised constraint: `( root [, ... [, additional]] )`
-#[derive(Clone, Debug, PartialEq, Eq, Hash, Serialize)]
+#[derive(Clone, Debug, PartialEq, Eq, Hash, Serialize, Deserialize)]
 pub struct Con {
     pub root: ESet,
     pub ext: bool,
@@ -187,20 +187,20 @@ impl Con {
     }
 }
 
-#[derive(Clone, Debug, PartialEq, Eq, Hash, Serialize)]
+#[derive(Clone, Debug, PartialEq, Eq, Hash, Serialize, Deserialize)]
 pub struct EnumDef {
     pub root: Vec<(String, Option<i128>)>,
     pub ext: Option<Vec<(String, Option<i128>)>>,
 }
 
-#[derive(Clone, Debug, PartialEq, Eq, Hash, Serialize)]
+#[derive(Clone, Debug, PartialEq, Eq, Hash, Serialize, Deserialize)]
 pub enum Opt {
     Req,
     Optional,
     Default(Val),
 }
 
-#[derive(Clone, Debug, PartialEq, Eq, Hash, Serialize)]
+#[derive(Clone, Debug, PartialEq, Eq, Hash, Serialize, Deserialize)]
 pub struct Comp {
     pub name: String,
     pub tag: Option<Tag>,
@@ -208,25 +208,25 @@ pub struct Comp {
     pub opt: Opt,
 }
 
-#[derive(Clone, Debug, PartialEq, Eq, Hash, Serialize)]
+#[derive(Clone, Debug, PartialEq, Eq, Hash, Serialize, Deserialize)]
 pub enum Addition {
     Comp(Comp),
     Group { version: Option<u32>, comps: Vec<Comp> },
 }
 
-#[derive(Clone, Debug, PartialEq, Eq, Hash, Serialize)]
+#[derive(Clone, Debug, PartialEq, Eq, Hash, Serialize, Deserialize)]
 pub struct Fields {
     pub root: Vec<Comp>,
     pub ext: Option<Vec<Addition>>,
 }
 
-#[derive(Clone, Debug, PartialEq, Eq, Hash, Serialize)]
+#[derive(Clone, Debug, PartialEq, Eq, Hash, Serialize, Deserialize)]
 pub struct Alts {
     pub root: Vec<Comp>,
     pub ext: Option<Vec<Addition>>,
 }
 
-#[derive(Clone, Debug, PartialEq, Eq, Hash, Serialize)]
+#[derive(Clone, Debug, PartialEq, Eq, Hash, Serialize, Deserialize)]
 pub struct OfTy {
     pub size: Option<Con>,
     /// `SEQUENCE (SIZE(..)) OF` (true) vs `SEQUENCE SIZE(..) OF` (false)
@@ -235,7 +235,7 @@ pub struct OfTy {
     pub elem: Box<Ty>,
 }
 
-#[derive(Clone, Debug, PartialEq, Eq, Hash, Serialize)]
+#[derive(Clone, Debug, PartialEq, Eq, Hash, Serialize, Deserialize)]
 pub enum Ty {
     Null,
     Boolean,
@@ -272,14 +272,14 @@ pub enum Ty {
     },
 }
 
-#[derive(Clone, Debug, PartialEq, Eq, Hash, Serialize)]
+#[derive(Clone, Debug, PartialEq, Eq, Hash, Serialize, Deserialize)]
 pub enum OidArc {
     Num(u64),
     Name(String),
     NameNum(String, u64),
 }
 
-#[derive(Clone, Debug, PartialEq, Eq, Hash, Serialize)]
+#[derive(Clone, Debug, PartialEq, Eq, Hash, Serialize, Deserialize)]
 pub enum Val {
     Int(i128),
     Bool(bool),
@@ -298,7 +298,7 @@ pub enum Val {
     SeqOf(Vec<Val>),
 }
 
-#[derive(Clone, Debug, PartialEq, Eq, Hash, Serialize)]
+#[derive(Clone, Debug, PartialEq, Eq, Hash, Serialize, Deserialize)]
 pub enum Item {
     Type {
         name: String,
@@ -333,13 +333,13 @@ impl Item {
     }
 }
 
-#[derive(Clone, Debug, PartialEq, Eq, Hash, Serialize)]
+#[derive(Clone, Debug, PartialEq, Eq, Hash, Serialize, Deserialize)]
 pub struct Import {
     pub symbols: Vec<String>,
     pub from: String,
 }
 
-#[derive(Clone, Debug, PartialEq, Eq, Hash, Serialize)]
+#[derive(Clone, Debug, PartialEq, Eq, Hash, Serialize, Deserialize)]
 pub struct Module {
     pub name: String,
     pub tagging: Tagging,
@@ -348,7 +348,7 @@ pub struct Module {
     pub items: Vec<Item>,
 }
 
-#[derive(Clone, Debug, PartialEq, Eq, Hash, Serialize)]
+#[derive(Clone, Debug, PartialEq, Eq, Hash, Serialize, Deserialize)]
 pub struct ModuleSet {
     pub modules: Vec<Module>,
 }
